@@ -2,7 +2,7 @@ SPECIFICATION Spec
 CONSTANTS
   Procs = {1, 2, 3}
   Prog <- EB
-  MaxNodes = 9
+  MaxNodes = 11
   CleanPeriod = 1
   NoPrecheck = TRUE
 INVARIANTS LinOK TreeOK
